@@ -5,6 +5,9 @@ use crate::cache::cache::{
 use crate::cache::error::Result;
 use rand::rngs::SmallRng;
 use rand::{Rng, SeedableRng};
+#[cfg(feature = "memcrs_verif")]
+use crate::verif as atomic;
+#[cfg(not(feature = "memcrs_verif"))]
 use std::sync::atomic;
 use std::sync::Arc;
 
@@ -39,6 +42,8 @@ impl RandomPolicy {
                 break;
             }
             let item = small_rng.gen_range(0..max);
+            #[cfg(feature = "memcrs_verif")]
+            let item = crate::verif::choose(max).unwrap_or(item);
             let mut number_of_calls: usize = 0;
             let res = self
                 .store
@@ -66,6 +71,13 @@ impl RandomPolicy {
     fn decr_mem_usage(&self, value: u64) -> u64 {
         self.memory_usage
             .fetch_sub(value, atomic::Ordering::Release)
+    }
+}
+
+#[cfg(feature = "memcrs_verif")]
+impl RandomPolicy {
+    pub fn verif_usage(&self) -> u64 {
+        self.memory_usage.verif_peek()
     }
 }
 
